@@ -38,6 +38,10 @@ Proof. reflexivity. Qed.
 Lemma done_cap_one : ew_done_cap = 1.
 Proof. reflexivity. Qed.
 
+(* FifoBuffer remembers ReleaseGoroutines: PopMultiple does not wait on an empty released buffer *)
+Lemma release_sticky : ew_release_sticky = true.
+Proof. reflexivity. Qed.
+
 (* ---------- the invariant ---------- *)
 Definition ok_batch (b : list msg) : Prop := (1 <= length b <= 100)%nat.
 
@@ -51,6 +55,9 @@ Definition w_post (w : wpc) : bool :=
   | WPop true | WWait true | WSend true _ | WInWrite true | WLen | WWg | WExit => true
   | _ => false
   end.
+
+(* the batcher is past ReleaseGoroutines *)
+Definition b_released (b : bpc) : bool := match b with BWg | BExit => true | _ => false end.
 
 Record Inv (s : st) : Prop := mkInv {
   i_cons : accepted s = concat (delivered s) ++ pending s;
@@ -71,7 +78,9 @@ Record Inv (s : st) : Prop := mkInv {
   i_woken : woken s = true -> waiting (wp s) = true;
   i_wait : waiting (wp s) = true -> woken s = false -> buf s = [];
   i_ret : cp s = CReturned -> bp s = BExit /\ wp s = WExit;
-  i_panic : panicked s = true -> closed s = true
+  i_panic : panicked s = true -> closed s = true;
+  i_rel : released s = b_released (bp s);
+  i_nolost : b_released (bp s) = true -> waiting (wp s) = true -> woken s = true
 }.
 
 Lemma inv_init : Inv init.
@@ -80,8 +89,8 @@ Proof.
     try constructor; try (intros [?|?]; discriminate); try lia.
 Qed.
 
-Ltac pj := cbn [chan closed buf woken done_sig wg bp wp cp delivered accepted panicked
-                 b_late b_signalled w_post waiting hand inflight pending after
+Ltac pj := cbn [chan closed buf woken done_sig released wg bp wp cp delivered accepted panicked
+                 b_late b_signalled b_released w_post waiting hand inflight pending after
                  app concat negb andb orb] in *.
 
 Ltac crush :=
@@ -97,8 +106,8 @@ Ltac crush :=
 (* --- producers --- *)
 Lemma inv_pub p e s : Inv s -> Inv (step_pub p e s).
 Proof.
-  intros [Hc Hk Hb Hi Hcap Hcl Hwg Hbl Hd Hwp Hpop Hnw Hwe Hwk Hwt Hr Hp].
-  destruct s as [ch cl bf wk dn g b w c dl ac pn]. unfold step_pub.
+  intros [Hc Hk Hb Hi Hcap Hcl Hwg Hbl Hd Hwp Hpop Hnw Hwe Hwk Hwt Hr Hp Hrl Hnl].
+  destruct s as [ch cl bf wk dn rl g b w c dl ac pn]. unfold step_pub.
   destruct (key_of e) as [k|] eqn:Ek; [|constructor; assumption].
   destruct cl.
   - constructor; pj; try assumption. reflexivity.
@@ -114,8 +123,8 @@ Qed.
 (* --- batcher --- *)
 Lemma inv_B s : Inv s -> Inv (step_B s).
 Proof.
-  intros [Hc Hk Hb Hi Hcap Hcl Hwg Hbl Hd Hwp Hpop Hnw Hwe Hwk Hwt Hr Hp].
-  destruct s as [ch cl bf wk dn g b w c dl ac pn]. unfold step_B. unfold pending in *.
+  intros [Hc Hk Hb Hi Hcap Hcl Hwg Hbl Hd Hwp Hpop Hnw Hwe Hwk Hwt Hr Hp Hrl Hnl].
+  destruct s as [ch cl bf wk dn rl g b w c dl ac pn]. unfold step_B. unfold pending in *. rewrite release_sticky.
   assert (Hnp : b_signalled b = false -> w_post w = false).
   { pj. intro E. destruct (w_post w); [rewrite (Hwp eq_refl) in E; discriminate|reflexivity]. }
   destruct b as [|m| | | |]; [destruct ch as [|m r]; [destruct cl|]| | | | |];
@@ -130,6 +139,7 @@ Proof.
   - rewrite (Hnp eq_refl). reflexivity.
   - destruct wk; pj; [intros _; apply Hwk; reflexivity|auto].
   - intros H1 H2. rewrite H1 in H2. destruct wk; discriminate.
+  - intros _ ->. destruct wk; reflexivity.
 Qed.
 
 (* --- writer --- *)
@@ -142,11 +152,11 @@ Qed.
 
 Lemma inv_W s : Inv s -> Inv (step_W s).
 Proof.
-  intros [Hc Hk Hb Hi Hcap Hcl Hwg Hbl Hd Hwp Hpop Hnw Hwe Hwk Hwt Hr Hp].
-  destruct s as [ch cl bf wk dn g b w c dl ac pn]. unfold step_W. unfold pending in *.
+  intros [Hc Hk Hb Hi Hcap Hcl Hwg Hbl Hd Hwp Hpop Hnw Hwe Hwk Hwt Hr Hp Hrl Hnl].
+  destruct s as [ch cl bf wk dn rl g b w c dl ac pn]. unfold step_W. unfold pending in *.
   rewrite drain_on_done.
   destruct w as [|d|d|d bt|d| | |];
-    [destruct dn|destruct bf as [|x bf]|destruct wk; [destruct bf as [|x bf]|]
+    [destruct dn|destruct bf as [|x bf]; [destruct rl|]|destruct wk; [destruct bf as [|x bf]|]
      |destruct bt as [|x bt]| |destruct bf as [|x bf]| |];
     try destruct d;
     try (constructor; assumption);
@@ -167,8 +177,8 @@ Qed.
 (* --- closer --- *)
 Lemma inv_C s : Inv s -> Inv (step_C s).
 Proof.
-  intros [Hc Hk Hb Hi Hcap Hcl Hwg Hbl Hd Hwp Hpop Hnw Hwe Hwk Hwt Hr Hp].
-  destruct s as [ch cl bf wk dn g b w c dl ac pn]. unfold step_C. unfold pending in *.
+  intros [Hc Hk Hb Hi Hcap Hcl Hwg Hbl Hd Hwp Hpop Hnw Hwe Hwk Hwt Hr Hp Hrl Hnl].
+  destruct s as [ch cl bf wk dn rl g b w c dl ac pn]. unfold step_C. unfold pending in *.
   destruct c; [| |destruct (g =? 0)%Z eqn:Eg|];
     try (constructor; assumption);
     (constructor; unfold pending; pj; try assumption; try solve [crush]).
@@ -202,7 +212,7 @@ Lemma accepted_spec s :
   accepted (step LB s) = accepted s /\ accepted (step LW s) = accepted s /\
   accepted (step LC s) = accepted s.
 Proof.
-  destruct s as [ch cl bf wk dn g b w c dl ac pn]. unfold publish_enabled.
+  destruct s as [ch cl bf wk dn rl g b w c dl ac pn]. unfold publish_enabled.
   repeat split; cbn [step].
   - intros p e. unfold step_pub. cbn [closed chan accepted].
     destruct (key_of e); [|reflexivity]. destruct cl; cbn [negb andb]; [reflexivity|].
@@ -210,7 +220,7 @@ Proof.
   - unfold step_B. destruct b; try reflexivity. destruct ch; [destruct cl|]; reflexivity.
   - unfold step_W. destruct w as [|d|d|d bt|d| | |]; try reflexivity.
     + destruct dn; reflexivity.
-    + destruct bf; reflexivity.
+    + destruct bf; [destruct rl|]; reflexivity.
     + destruct wk; [destruct bf|]; reflexivity.
     + destruct bt; reflexivity.
     + destruct bf; reflexivity.
@@ -293,7 +303,7 @@ Lemma producers_never_wait sched :
 Proof.
   cbn zeta. intro Hcl. pose proof (inv_reach sched) as I.
   pose proof (i_cap _ I) as Hcap. pose proof (i_blate _ I) as Hbl.
-  destruct (run sched init) as [ch cl bf wk dn g b w c dl ac pn]. cbn [closed chan bp] in *. subst cl.
+  destruct (run sched init) as [ch cl bf wk dn rl g b w c dl ac pn]. cbn [closed chan bp] in *. subst cl.
   pose proof chan_cap_pos as Hpos.
   destruct (Nlen ch <? ew_chan_cap) eqn:El.
   - exists 0%nat. split; [lia|]. cbn. unfold publish_enabled. cbn. rewrite El. auto.
@@ -403,60 +413,24 @@ Proof.
   vm_compute. repeat split; auto; try discriminate.
 Qed.
 
-(* ---------- Close can hang ---------- *)
+(* ---------- the lost wake-up is gone ---------- *)
+(* the schedule that made Close hang before FifoBuffer got its `released` flag: the writer
+   decides `default:`, Close closes the channel, the batcher signals, broadcasts and leaves, and
+   only then the writer enters PopMultiple on the empty buffer *)
 Definition hang_sched : list label := [LW; LC; LC; LB; LB; LB; LB; LW].
 
-Definition dead (s : st) : Prop :=
-  cp s = CClosed /\ bp s = BExit /\ wp s = WWait false /\ woken s = false /\
-  wg s <> 0%Z /\ closed s = true.
-
-Lemma dead_step l s : dead s -> dead (step l s).
+Lemma no_lost_wakeup sched : ~ lost_wakeup (run sched init).
 Proof.
-  intros (Hc & Hb & Hw & Hk & Hg & Hcl).
-  destruct s as [ch cl bf wk dn g b w c dl ac pn]. cbn in *. subst.
-  destruct l as [p e| | |]; cbn.
-  - unfold step_pub. destruct (key_of e); unfold dead; cbn; auto 10.
-  - unfold dead; cbn; auto 10.
-  - unfold dead; cbn; auto 10.
-  - destruct (g =? 0)%Z eqn:E; [apply Z.eqb_eq in E; contradiction|]. unfold dead; cbn; auto 10.
+  intros (_ & Hb & Hw & Hk & _). pose proof (i_nolost _ (inv_reach sched)) as H.
+  rewrite Hb, Hw in H. specialize (H eq_refl eq_refl). congruence.
 Qed.
 
-Lemma dead_run sched s : dead s -> dead (run sched s).
-Proof.
-  revert s. induction sched as [|l sched IH]; intros s H; [exact H|].
-  cbn. apply IH, dead_step, H.
-Qed.
-
-Lemma close_can_hang :
-  let s := run hang_sched init in
-  lost_wakeup s /\ forall sched', cp (run sched' s) <> CReturned.
-Proof.
-  cbn zeta. split.
-  - vm_compute. repeat split; reflexivity.
-  - intros sched'. assert (D : dead (run hang_sched init)).
-    { vm_compute. repeat split; try reflexivity. discriminate. }
-    destruct (dead_run sched' _ D) as (Hc & _). rewrite Hc. discriminate.
-Qed.
-
-(* after Close has been called, the only state in which nothing can move and Close has not
-   returned is the lost wake-up; even there nothing accepted is missing at the broker *)
-Lemma stuck_is_lost_wakeup sched :
-  let s := run sched init in
-  cp s = CClosed -> b_can s = false -> w_can s = false -> c_can s = false -> lost_wakeup s.
-Proof.
-  cbn zeta. intros Hc Hb Hw Hcc. pose proof (inv_reach sched) as I.
-  destruct I as [Ic _ _ _ _ Icl Iwg Ibl Id _ _ Inw _ _ Iwt _ _].
-  unfold lost_wakeup, b_can, w_can, c_can, pending in *.
-  destruct (run sched init) as [ch cl bf wk dn g b w c dl ac pn]. cbn in *. subst c.
-  subst cl.
-  assert (Eb : b = BExit).
-  { destruct b; try discriminate; [destruct ch; discriminate|reflexivity]. }
-  subst b. destruct (Ibl eq_refl) as [-> _].
-  destruct w as [|d|d|d bt|d| | |]; try discriminate.
-  - subst wk. destruct d; [congruence|]. rewrite (Iwt eq_refl eq_refl) in *.
-    cbn in *. rewrite app_nil_r in Ic. repeat split; auto.
-  - exfalso. apply Z.eqb_neq in Hcc. lia.
-Qed.
+(* on that schedule the writer now comes back from PopMultiple empty-handed, sees the done token
+   at its next select, and Close returns *)
+Lemma old_hang_schedule_terminates :
+  wp (run hang_sched init) = WSelect /\ done_sig (run hang_sched init) = true /\
+  cp (run (hang_sched ++ [LW; LW; LW; LC]) init) = CReturned.
+Proof. vm_compute. repeat split; reflexivity. Qed.
 
 (* every step of the batcher, the writer or Close strictly decreases [measure]: between two
    publications the service processes can only make finitely many steps (in particular, after
@@ -467,35 +441,49 @@ Proof.
 Qed.
 
 Lemma measure_decreases l s :
+  Inv s ->
   (l = LB \/ l = LW \/ l = LC) -> can l s = true -> (measure (step l s) < measure s)%nat.
 Proof.
-  intros Hl Hcan.
-  destruct s as [ch cl bf wk dn g b w c dl ac pn].
+  intros I Hl Hcan.
+  pose proof (i_done _ I) as Id. pose proof (i_rel _ I) as Irl. pose proof (i_wpop _ I) as Ipop.
+  destruct s as [ch cl bf wk dn rl g b w c dl ac pn].
+  cbn [done_sig released bp wp buf] in Id, Irl, Ipop.
   destruct Hl as [-> | [-> | ->]]; cbn [can] in Hcan; cbn [step].
-  - unfold b_can in Hcan. cbn [bp chan closed] in Hcan. unfold step_B, measure, credits, b_rank.
+  - unfold b_can in Hcan. cbn [bp chan closed] in Hcan.
+    unfold step_B, measure, credits, b_rank, w_extra.
+    assert (Hex : (match w with WPop false => 3 | _ => 0 end <= 3)%nat)
+      by (destruct w as [|[|]|?|? ?|?| | |]; lia).
     destruct b as [|m| | | |]; try discriminate.
     + destruct ch as [|m r]; [subst cl|]; cbn; lia.
     + cbn. rewrite app_length. cbn. destruct wk, (waiting w); cbn; lia.
     + cbn. destruct dn; cbn; lia.
     + cbn. destruct wk, (waiting w); cbn; lia.
     + cbn. lia.
-  - unfold w_can in Hcan. cbn [wp woken] in Hcan. unfold step_W, measure, credits, b_rank.
+  - unfold w_can in Hcan. cbn [wp woken] in Hcan.
+    unfold step_W, measure, credits, b_rank, w_extra.
     rewrite drain_on_done.
     destruct w as [|d|d|d bt|d| | |]; try discriminate.
     + destruct dn; cbn; lia.
     + destruct bf as [|x bf].
-      * cbn. destruct wk, d; cbn; lia.
+      * destruct rl.
+        -- (* released buffer: PopMultiple returns at once; the done token is there *)
+           destruct d; [exfalso; apply (Ipop eq_refl); reflexivity|].
+           assert (Hs : b_signalled b = true) by (destruct b; try discriminate; reflexivity).
+           rewrite Hs in Id. cbn in Id. subst dn. cbn. lia.
+        -- cbn. destruct wk, d, dn; cbn; lia.
       * pose proof (skipn_shorter (pop_max d) (x :: bf) (pop_max_pos d) ltac:(discriminate)) as Hs.
-        cbn [chan buf bp wp cp woken done_sig b_rank w_rank]. cbn [length] in *. lia.
+        cbn [chan buf bp wp cp woken done_sig b_rank w_rank]. cbn [length] in *.
+        destruct dn, d; lia.
     + subst wk. destruct bf as [|x bf].
-      * cbn. destruct d; cbn; lia.
+      * cbn. destruct d, dn; cbn; lia.
       * pose proof (skipn_shorter (pop_max d) (x :: bf) (pop_max_pos d) ltac:(discriminate)) as Hs.
-        cbn [chan buf bp wp cp woken done_sig b_rank w_rank b2n]. cbn [length] in *. lia.
-    + destruct bt; cbn; destruct d; cbn; lia.
-    + cbn. destruct d; cbn; lia.
-    + destruct bf; cbn; lia.
-    + cbn. lia.
-  - unfold c_can in Hcan. cbn [cp wg] in Hcan. unfold step_C, measure, credits, b_rank.
+        cbn [chan buf bp wp cp woken done_sig b_rank w_rank b2n]. cbn [length] in *.
+        destruct dn; lia.
+    + destruct bt; cbn; destruct d, dn; cbn; lia.
+    + cbn. destruct d, dn; cbn; lia.
+    + destruct bf; cbn; destruct dn; lia.
+    + cbn. destruct dn; lia.
+  - unfold c_can in Hcan. cbn [cp wg] in Hcan. unfold step_C, measure, credits, b_rank, w_extra.
     destruct c; try discriminate; [cbn; lia|cbn; lia|]. rewrite Hcan. cbn. lia.
 Qed.
 
@@ -513,7 +501,7 @@ Lemma forced_schedule_is_schedule ops :
   coarse_state ops init_settled = run (init_labels ++ coarse_sched ops init_settled) init.
 Proof. rewrite run_app. apply coarse_state_is_run. Qed.
 
-(* ---------- Close returns, or the run ends in the lost wake-up ---------- *)
+(* ---------- Close returns ---------- *)
 Definition service (l : label) : Prop := l = LB \/ l = LW \/ l = LC.
 Definition quiescent (s : st) : Prop := b_can s = false /\ w_can s = false /\ c_can s = false.
 (* a scheduling policy: which process moves next; fair = it picks a process that can move
@@ -523,32 +511,32 @@ Definition fair_policy (pol : st -> label) : Prop :=
 Fixpoint drive (pol : st -> label) (n : nat) (s : st) : st :=
   match n with O => s | S k => drive pol k (step (pol s) s) end.
 
-Lemma stuck_is_lost_wakeup_inv s :
-  Inv s -> cp s = CClosed -> quiescent s -> lost_wakeup s.
+(* once Close has been called, nothing can move only when Close has returned *)
+Lemma quiescent_returned s :
+  Inv s -> cp s <> CNot -> quiescent s -> cp s = CReturned.
 Proof.
   intros I Hc (Hb & Hw & Hcc).
-  destruct I as [Ic _ _ _ _ Icl Iwg Ibl Id _ _ Inw _ _ Iwt _ _].
-  unfold lost_wakeup, b_can, w_can, c_can, pending in *.
-  destruct s as [ch cl bf wk dn g b w c dl ac pn]. cbn in *. subst c.
-  subst cl.
+  destruct I as [_ _ _ _ _ Icl Iwg Ibl _ _ _ _ _ _ _ _ _ _ Inl].
+  unfold b_can, w_can, c_can in *.
+  destruct s as [ch cl bf wk dn rl g b w c dl ac pn]. cbn in *.
+  destruct c; try congruence; try discriminate. subst cl.
   assert (Eb : b = BExit).
   { destruct b; try discriminate; [destruct ch; discriminate|reflexivity]. }
-  subst b. destruct (Ibl eq_refl) as [-> _].
+  subst b.
   destruct w as [|d|d|d bt|d| | |]; try discriminate.
-  - subst wk. destruct d; [congruence|]. rewrite (Iwt eq_refl eq_refl) in *.
-    cbn in *. rewrite app_nil_r in Ic. repeat split; auto.
+  - rewrite (Inl eq_refl eq_refl) in Hw. discriminate.
   - exfalso. apply Z.eqb_neq in Hcc. lia.
 Qed.
 
 Lemma cp_not_back l s : cp s <> CNot -> cp (step l s) <> CNot.
 Proof.
-  destruct s as [ch cl bf wk dn g b w c dl ac pn]. cbn [cp]. intro H.
+  destruct s as [ch cl bf wk dn rl g b w c dl ac pn]. cbn [cp]. intro H.
   destruct l as [p e| | |]; cbn [step].
   - unfold step_pub. destruct (key_of e); [destruct cl; [|destruct (Nlen ch <? ew_chan_cap)]|]; exact H.
   - unfold step_B. destruct b; try exact H. destruct ch; [destruct cl|]; exact H.
   - unfold step_W. destruct w as [|d|d|d bt|d| | |]; try exact H.
     + destruct dn; exact H.
-    + destruct bf; exact H.
+    + destruct bf; [destruct rl|]; exact H.
     + destruct wk; [destruct bf|]; exact H.
     + destruct bt; exact H.
     + destruct bf; exact H.
@@ -561,26 +549,18 @@ Proof.
     try (left; repeat split; reflexivity); right; intros (A & B & C); discriminate.
 Qed.
 
-Lemma close_returns_or_lost_wakeup_inv pol :
+Lemma close_terminates_inv pol :
   fair_policy pol ->
   forall m s, (measure s <= m)%nat -> Inv s -> cp s <> CNot ->
-  exists n, (n <= m)%nat /\ (cp (drive pol n s) = CReturned \/ lost_wakeup (drive pol n s)).
+  exists n, (n <= m)%nat /\ cp (drive pol n s) = CReturned.
 Proof.
   intros Hfair. induction m as [|m IH]; intros s Hm I Hc.
   - exists 0%nat. split; [lia|]. cbn [drive].
-    destruct (quiescent_dec s) as [Q|Q].
-    + destruct (cp s) eqn:Ec; try congruence.
-      * destruct Q as (_ & _ & Q). unfold c_can in Q. rewrite Ec in Q. discriminate.
-      * right. apply stuck_is_lost_wakeup_inv; assumption.
-      * left. reflexivity.
-    + destruct (Hfair s Q) as [Hs Hcan]. pose proof (measure_decreases _ _ Hs Hcan). lia.
+    destruct (quiescent_dec s) as [Q|Q]; [apply quiescent_returned; assumption|].
+    destruct (Hfair s Q) as [Hs Hcan]. pose proof (measure_decreases _ _ I Hs Hcan). lia.
   - destruct (quiescent_dec s) as [Q|Q].
-    + exists 0%nat. split; [lia|]. cbn [drive].
-      destruct (cp s) eqn:Ec; try congruence.
-      * destruct Q as (_ & _ & Q). unfold c_can in Q. rewrite Ec in Q. discriminate.
-      * right. apply stuck_is_lost_wakeup_inv; assumption.
-      * left. reflexivity.
-    + destruct (Hfair s Q) as [Hs Hcan]. pose proof (measure_decreases _ _ Hs Hcan) as Hd.
+    + exists 0%nat. split; [lia|]. cbn [drive]. apply quiescent_returned; assumption.
+    + destruct (Hfair s Q) as [Hs Hcan]. pose proof (measure_decreases _ _ I Hs Hcan) as Hd.
       destruct (IH (step (pol s) s)) as (n & Hn & Hres).
       * lia.
       * apply step_inv, I.
@@ -588,16 +568,16 @@ Proof.
       * exists (S n). split; [lia|]. cbn [drive]. exact Hres.
 Qed.
 
-Lemma close_returns_or_lost_wakeup pol sched :
+(* Close terminates: under every fair policy, from every reachable state in which Close has been
+   called, Close has returned after at most [measure s] steps *)
+Lemma close_terminates pol sched :
   fair_policy pol ->
   let s := run sched init in
   cp s <> CNot ->
-  exists n, (n <= measure s)%nat /\
-            (cp (drive pol n s) = CReturned \/ lost_wakeup (drive pol n s)).
+  exists n, (n <= measure s)%nat /\ cp (drive pol n s) = CReturned.
 Proof.
   cbn zeta. intros Hf Hc.
-  apply (close_returns_or_lost_wakeup_inv pol Hf (measure (run sched init))); auto.
-  apply inv_reach.
+  apply (close_terminates_inv pol Hf (measure (run sched init))); auto. apply inv_reach.
 Qed.
 
 (* such policies exist: batcher first, then writer, then Close *)
@@ -611,17 +591,11 @@ Proof.
   exfalso. apply Q. auto.
 Qed.
 
-Definition close_terminates_statement : Prop :=
-  forall sched, cp (run sched init) = CClosed ->
-                exists sched', cp (run sched' (run sched init)) = CReturned.
-
-Lemma close_terminates_refuted : ~ close_terminates_statement.
-Proof.
-  intro H. destruct close_can_hang as [L N].
-  destruct (H hang_sched) as [sched' R].
-  - destruct L as [Hc _]. exact Hc.
-  - exact (N sched' R).
-Qed.
+(* measure on reachable states, as stated in the props file *)
+Lemma measure_decreases_reach sched l :
+  let s := run sched init in
+  (l = LB \/ l = LW \/ l = LC) -> can l s = true -> (measure (step l s) < measure s)%nat.
+Proof. cbn zeta. apply measure_decreases, inv_reach. Qed.
 
 Definition same_key_all_types_statement : Prop :=
   forall sched m1 m2,
@@ -672,9 +646,9 @@ Lemma bw_quiescent_delivered s :
   pending s = [] /\ concat (delivered s) = accepted s.
 Proof.
   intros I Hc (Hb & Hw).
-  destruct I as [Ic _ _ _ _ Icl _ Ibl _ Iwp _ _ _ _ Iwt _ _].
+  destruct I as [Ic _ _ _ _ Icl _ Ibl _ Iwp _ _ _ _ Iwt _ _ _ _].
   unfold b_can, w_can, pending in *.
-  destruct s as [ch cl bf wk dn g b w c dl ac pn]. cbn in *. subst c. subst cl.
+  destruct s as [ch cl bf wk dn rl g b w c dl ac pn]. cbn in *. subst c. subst cl.
   assert (Eb : b = BIdle /\ ch = []).
   { destruct b; try discriminate.
     - destruct ch; [auto|discriminate].
@@ -690,12 +664,12 @@ Lemma bw_step_keeps l s :
   (l = LB \/ l = LW) -> cp (step l s) = cp s /\ accepted (step l s) = accepted s.
 Proof.
   intros Hl. destruct (accepted_spec s) as (_ & HB & HW & _).
-  destruct s as [ch cl bf wk dn g b w c dl ac pn].
+  destruct s as [ch cl bf wk dn rl g b w c dl ac pn].
   destruct Hl as [-> | ->]; (split; [|assumption]); cbn [step].
   - unfold step_B. destruct b; try reflexivity. destruct ch; [destruct cl|]; reflexivity.
   - unfold step_W. destruct w as [|d|d|d bt|d| | |]; try reflexivity.
     + destruct dn; reflexivity.
-    + destruct bf; reflexivity.
+    + destruct bf; [destruct rl|]; reflexivity.
     + destruct wk; [destruct bf|]; reflexivity.
     + destruct bt; reflexivity.
     + destruct bf; reflexivity.
@@ -715,13 +689,13 @@ Proof.
     + destruct (bw_quiescent_delivered s I Hc Q). auto.
     + destruct (Hfair s Q) as [Hs Hcan].
       assert (Hs' : pol s = LB \/ pol s = LW \/ pol s = LC) by tauto.
-      pose proof (measure_decreases _ _ Hs' Hcan). lia.
+      pose proof (measure_decreases _ _ I Hs' Hcan). lia.
   - destruct (bw_quiescent_dec s) as [Q|Q].
     + exists 0%nat. split; [lia|]. cbn [drive].
       destruct (bw_quiescent_delivered s I Hc Q). auto.
     + destruct (Hfair s Q) as [Hs Hcan].
       assert (Hs' : pol s = LB \/ pol s = LW \/ pol s = LC) by tauto.
-      pose proof (measure_decreases _ _ Hs' Hcan) as Hd.
+      pose proof (measure_decreases _ _ I Hs' Hcan) as Hd.
       destruct (bw_step_keeps (pol s) s Hs) as [Kc Ka].
       destruct (IH (step (pol s) s)) as (n & Hn & Hp & Hcd & Hacc).
       * lia.
@@ -752,9 +726,9 @@ Proof.
 Qed.
 
 Lemma constants_fit_model :
-  ew_done_cap = 1 /\ ew_drain_on_done = true /\
+  ew_done_cap = 1 /\ ew_drain_on_done = true /\ ew_release_sticky = true /\
   (forall d, (1 <= pop_max d <= 100)%nat) /\ (1 <= N.to_nat ew_chan_cap)%nat.
 Proof.
-  split; [exact done_cap_one|]. split; [exact drain_on_done|].
+  split; [exact done_cap_one|]. split; [exact drain_on_done|]. split; [exact release_sticky|].
   split; [intro d; split; [apply pop_max_pos|apply pop_max_le]|exact chan_cap_pos].
 Qed.
